@@ -34,6 +34,10 @@ class Inconclusive(BaseException):
             ENGINE.inconclusive_flag = True
 
 
+class BudgetExceeded(BaseException):
+    """wall-clock budget of the instance exhausted: exploration stops, the instance is reported as truncated"""
+
+
 class Unsupported(Exception):
     """a symbolic value reached something the engine does not model"""
 
@@ -77,11 +81,15 @@ class Engine:
         self.inconclusive_flag = False
         self.literals = []     # decided literals of the current path (for robust models)
         self.truncated = False
+        self.deadline = None
 
     # ------------------------------------------------------------------ solver helpers
     def check(self, *extra):
         """sat? under the current path condition plus extra; returns (bool, model|None); raises Inconclusive"""
         t = time.time()
+        if self.deadline is not None and t > self.deadline:
+            self.truncated = True
+            raise BudgetExceeded()
         self.s.push()
         for e in extra:
             self.s.add(e)
@@ -292,6 +300,10 @@ class Engine:
                 if self.realised_flag:
                     self.realised_paths += 1
                 results.append(r)
+            except BudgetExceeded:
+                self.s.pop()
+                self.truncated = True
+                break
             except PathAbort:
                 self.aborted_paths += 1
             except Inconclusive:
@@ -299,6 +311,9 @@ class Engine:
                 if on_unknown:
                     on_unknown(self)
             except Exception:
+                if self.truncated:
+                    self.s.pop()
+                    break
                 if self.inconclusive_flag:
                     self.unknown_paths += 1
                 elif self.aborted:
@@ -588,7 +603,7 @@ class Sym:
         if s.isint and (isinstance(o, int) or _is_np_int(o) or (isinstance(o, Sym) and o.isint)):
             return mk(_ifloordiv(toz(s), toz(o)))
         a = toz(s, True); b = toz(o, True)
-        return mk(z3.ToReal(z3.ToInt(a / b)))
+        return _np.float64(ENGINE.concretize(z3.simplify(z3.ToInt(a / b))))
 
     def __rfloordiv__(s, o):
         if s.isint and (isinstance(o, int) or _is_np_int(o)):
@@ -661,14 +676,16 @@ class Sym:
         # truncation toward zero, then solver-driven case split over the feasible integer values
         return ENGINE.concretize(z3.If(s.e >= 0, z3.ToInt(s.e), -z3.ToInt(-s.e)))
 
+    # floor / ceil / trunc of a symbolic real: case split on the integer result (solver-enumerated), so that everything
+    # computed from it stays linear on each case
     def __trunc__(s):
-        return s if s.isint else Sym(z3.If(s.e >= 0, z3.ToInt(s.e), -z3.ToInt(-s.e)))
+        return s if s.isint else ENGINE.concretize(z3.simplify(z3.If(s.e >= 0, z3.ToInt(s.e), -z3.ToInt(-s.e))))
 
     def __floor__(s):
-        return s if s.isint else Sym(z3.ToInt(s.e))
+        return s if s.isint else ENGINE.concretize(z3.simplify(z3.ToInt(s.e)))
 
     def __ceil__(s):
-        return s if s.isint else Sym(-z3.ToInt(-s.e))
+        return s if s.isint else ENGINE.concretize(z3.simplify(-z3.ToInt(-s.e)))
 
     def __float__(s):
         v = ENGINE.unique_value(s.e)
